@@ -45,6 +45,10 @@ class Missing(metaclass=MissingType):
     def __repr__(self) -> str:
         return "MISSING"
 
+    def __reduce__(self) -> str:
+        # copy, deepcopy and unpickling resolve to the MISSING singleton instead of a new instance
+        return "MISSING"
+
     def __getattr__(
         self,
         name: str,
